@@ -128,6 +128,19 @@ class Taint:
                 # parameters standing for the actual arguments
                 bound = self.W.bind_params(r, path, list(args))
                 return self.taint(bound, depth + 1)
+            clos = [a for a in args if isinstance(a, tuple) and a and a[0] == "closure" and a[1] in P.fns]
+            if clos and depth < 6:
+                # an adaptor given a closure (`map_err(|e| format!(.., seed.len(), e))`): what comes out is what goes in plus what the closure
+                # returns - not everything the closure captured (a captured secret of which only the length is used stays inside)
+                rest = [a for a in args if a not in clos]
+                out = self._union(rest, depth)
+                for c in clos:
+                    r = self.W.ev(c[1]).ret()
+                    if r == ("never",):
+                        continue
+                    bound = self.W.bind_params(r, c[1], [c] + rest[:1])
+                    out |= self.taint(bound, depth + 1)
+                return out
             return self._union(args, depth)
         if k == "field":
             name = t[2]
